@@ -11,6 +11,8 @@ import SfntV.Proofs.OtlFeatureList
 import SfntV.Proofs.OtlGdef
 import SfntV.Proofs.OtlGtab
 import SfntV.Proofs.OtlScriptList
+import SfntV.Proofs.OtlGsub8
+import SfntV.Proofs.OtlGposMark
 
 namespace SfntV.Props.C08
 open SfntV SfntV.Otl
@@ -232,9 +234,24 @@ theorem C08_st_roundtrip_gsub4_1 (rev : List Nat) (repl : List (List Gsub.Lig)) 
     (Gsub.lig41Total repl > 0xFFFF → ∃ s, Gsub.encode41 rev repl = .panic s) :=
   ⟨Gsub.roundtrip41 rev repl h hl hs, Gsub.refusal41 rev repl h⟩
 
+/-- GSUB 8.1 (Reverse Chaining Contextual Single Substitution), model of the repaired encoder: input
+coverage with one substitute per covered glyph, any number of backtrack and lookahead coverage tables.
+Whenever the encoder returns bytes (it panics when a coverage offset does not fit 16 bits), the reader
+gives the subtable back and the declared size is the emitted size. -/
+theorem C08_st_roundtrip_gsub8_1 (input : List Nat) (back look : List (List Nat)) (subs : List Nat)
+    (hi : Cov.Valid input) (hbk : ∀ c ∈ back, Cov.Valid c) (hlk : ∀ c ∈ look, Cov.Valid c)
+    (hs : subs.length = input.length) (hsl : ∀ x ∈ subs, x < 65536) (b : Bytes)
+    (henc : Gsub.encode81 input back look subs = .ok b) :
+    Gsub.readSubtable 8 b =
+      .ok (.s81 ⟨input.zipIdx, back.map List.zipIdx, look.map List.zipIdx, subs⟩) ∧
+    Gsub.encodeLen81 input back look subs = .ok b.length :=
+  Gsub.roundtrip81 input back look subs hi hbk hlk hs hsl b henc
+
 /-! Non-vacuity -/
 example : Gsub.encode41 [30] [[⟨[31, 32], 90⟩, ⟨[], 91⟩]] =
     .ok (wordsToBytes [1, 26, 1, 8, 2, 6, 14, 90, 3, 31, 32, 91, 1, 1, 1, 30]) := by decide
+example : Gsub.encode81 [7] [[3, 4]] [[9]] [70] =
+    .ok (wordsToBytes [1, 16, 1, 22, 1, 30, 1, 70, 1, 1, 7, 1, 2, 3, 4, 1, 1, 9]) := by decide
 example : Gsub.encode12 [4, 5, 9] [100, 101, 7] =
     .ok (wordsToBytes [2, 12, 3, 100, 101, 7, 1, 3, 4, 5, 9]) := by decide
 example : Gsub.encodeSeq [4, 5] [[1, 2, 3], []] =
@@ -341,6 +358,29 @@ example : Gpos.encode21 [5] [[(7, some [0, 0, 65486, 0, 0, 0, 0, 0], none)]] =
 example : Gpos.VROk (some [0, 0, 65486, 0, 0, 0, 0, 0]) := ⟨rfl, by decide⟩
 example : Gpos.encode11 [7, 8] (some [0, 0, 65486, 0, 0, 0, 0, 0]) =
     .ok (wordsToBytes [1, 8, 4, 65486, 1, 2, 7, 8]) := by decide
+
+/-! ## Anchors and GPOS 3.1 (cursive attachment; model of the repaired `Gpos3_1.encode`)
+
+An anchor is its two coordinates as 16-bit values (`GposMark.AOk`); `anchor.Table.Append` always writes
+format 1.  In a cursive record the anchor (0, 0) is the "no anchor" value: it is written as offset 0 and
+read back as (0, 0). -/
+
+/-- An anchor table written at any (even) position of a table is read back from that position. -/
+theorem C08_anchor_roundtrip (P T : List Nat) (c : Bytes) (a : GposMark.Anchor) (ha : GposMark.AOk a) :
+    GposMark.readAnchor (wordsToBytes (P ++ (GposMark.anchorWords a ++ T)) ++ c) (2 * P.length) = .ok a :=
+  GposMark.anchor_at P T c a ha
+
+/-- GPOS 3.1: one entry/exit anchor pair per covered glyph.  Whenever the encoder returns bytes (it
+panics when the coverage offset does not fit 16 bits), the reader gives coverage and anchors back and
+the declared size is the emitted size. -/
+theorem C08_st_roundtrip_gpos3_1 (rev : List Nat) (recs : List GposMark.EntryExit) (h : Cov.Valid rev)
+    (hl : recs.length = rev.length) (hok : ∀ r ∈ recs, GposMark.AOk r.1 ∧ GposMark.AOk r.2) (b : Bytes)
+    (henc : GposMark.encode31 rev recs = .ok b) :
+    GposMark.read31 b = .ok (rev.zipIdx, recs) ∧ GposMark.encodeLen31 rev recs = .ok b.length :=
+  GposMark.roundtrip31 rev recs h hl hok b henc
+
+example : GposMark.encode31 [4, 9] [((100, 65436), (0, 0)), ((0, 0), (7, 8))] =
+    .ok (wordsToBytes [1, 26, 2, 14, 0, 0, 20, 1, 100, 65436, 1, 7, 8, 1, 2, 4, 9]) := by decide
 
 /-! ## Feature list (`FeatureListInfo.encode` / `readFeatureList`)
 
